@@ -7,6 +7,7 @@ import (
 	"flag"
 	"fmt"
 	"go/types"
+	"hash/fnv"
 	"os"
 	"path/filepath"
 	"sort"
@@ -49,7 +50,9 @@ func cmdCheck(args []string) {
 	prop := fs.String("p", "", "property id")
 	tier := fs.String("tier", "quick", "quick|thorough")
 	root := fs.String("root", repoRoot, "repository root")
+	emit := fs.String("emit-known", "", "developer aid: write the undischarged obligations as candidate known-finding entries to this file")
 	fs.Parse(args)
+	emitKnownPath = *emit
 	if *prop == "" {
 		fmt.Fprintln(os.Stderr, "check: -p required")
 		os.Exit(2)
@@ -182,7 +185,13 @@ func runCheck(prop, tier, root string, seed int) int {
 		for _, w := range u.Unsupported {
 			unsup = append(unsup, u.Key+": "+w)
 		}
-		if u.Reach == "unsat" {
+		allOK := true
+		for _, o := range u.VC.obls {
+			if o.Status != "unsat" {
+				allOK = false
+			}
+		}
+		if u.Reach == "unsat" && allOK {
 			fmt.Printf("ENGINE-ERROR property=%s %s: preconditions/assumptions are contradictory (vacuous unit)\n", prop, u.Key)
 			vacuous++
 			engineErr++
@@ -214,6 +223,9 @@ func runCheck(prop, tier, root string, seed int) int {
 			}
 			nViol++
 			violNames = append(violNames, o.Name)
+			if emitKnownPath != "" {
+				emitKnown = append(emitKnown, KnownFinding{Property: prop, Obligation: o.Name, What: fmt.Sprintf("%s at %s:%d", o.Desc, strings.TrimPrefix(o.Pos.Filename, root+"/"), o.Pos.Line)})
+			}
 			rp := writeReplay(prog, replayDir, prop, u, o)
 			suffix := ""
 			if !rp.Confirmed {
@@ -251,25 +263,29 @@ func runCheck(prop, tier, root string, seed int) int {
 		"violations":  nViol,
 		"assumptions": as,
 		"coverage": map[string]interface{}{
-			"obligations":              nObl,
-			"discharged":               nOK,
-			"checker_cmd":              fmt.Sprintf("bin/govc check -p %s -tier %s", prop, tier),
-			"trusted_base":             trusted,
-			"explanation":              explanationOf(prop),
-			"units_under_contract":     fns,
-			"n_units":                  len(fns),
+			"obligations":          nObl,
+			"discharged":           nOK,
+			"checker_cmd":          fmt.Sprintf("bin/govc check -p %s -tier %s", prop, tier),
+			"trusted_base":         trusted,
+			"explanation":          explanationOf(prop),
+			"units_under_contract": fns,
+			"n_units":              len(fns),
 			"functions_verified_inlined_into_callers": inlined,
-			"loops_cut_by_invariants":  loops,
-			"by_backend":               byBackend,
-			"solver_s":                 solverS,
-			"known_finding_obligations": nKnown,
-			"undischarged":             violNames,
-			"unsupported_constructs":   dedup(unsup),
-			"vacuous_units":            vacuous,
-			"bounded_standins":         []string{},
-			"samples":                  samples,
-			"arith":                    "per function: bit-vectors of exact width (arith bv) or mathematical integers with explicit wrap-around at every Go operation (arith int)",
+			"loops_cut_by_invariants":                 loops,
+			"by_backend":                              byBackend,
+			"solver_s":                                solverS,
+			"known_finding_obligations":               nKnown,
+			"undischarged":                            violNames,
+			"unsupported_constructs":                  dedup(unsup),
+			"vacuous_units":                           vacuous,
+			"bounded_standins":                        []string{},
+			"samples":                                 samples,
+			"arith":                                   "per function: bit-vectors of exact width (arith bv) or mathematical integers with explicit wrap-around at every Go operation (arith int)",
 		},
+	}
+	if emitKnownPath != "" {
+		eb, _ := json.MarshalIndent(emitKnown, "", " ")
+		os.WriteFile(emitKnownPath, eb, 0o644)
 	}
 	os.MkdirAll(filepath.Join(verifRoot, "evidence"), 0o755)
 	b, _ := json.MarshalIndent(ev, "", " ")
@@ -326,34 +342,37 @@ func (p *Program) exportedMethods(tc *TypeContract) []string {
 	return out
 }
 
+var emitKnownPath string
+var emitKnown []KnownFinding
+
 type ReplayInfo struct {
 	Path      string
 	Confirmed bool
 }
 
 type ReplayFile struct {
-	Property   string `json:"property"`
-	Obligation string `json:"obligation"`
-	Function   string `json:"function"`
-	Class      string `json:"class"`
-	Clause     string `json:"clause"`
-	Position   string `json:"position"`
-	Status     string `json:"solver_status"`
-	Solver     string `json:"solver"`
-	Output     string `json:"solver_output"`
+	Property   string            `json:"property"`
+	Obligation string            `json:"obligation"`
+	Function   string            `json:"function"`
+	Class      string            `json:"class"`
+	Clause     string            `json:"clause"`
+	Position   string            `json:"position"`
+	Status     string            `json:"solver_status"`
+	Solver     string            `json:"solver"`
+	Output     string            `json:"solver_output"`
 	Inputs     map[string]string `json:"inputs,omitempty"`
-	TestFile   string `json:"go_test,omitempty"`
-	TestPkgDir string `json:"go_test_pkg,omitempty"`
-	TestName   string `json:"go_test_name,omitempty"`
-	Confirmed  bool   `json:"confirmed_on_real_code"`
-	ReplayLog  string `json:"replay_log,omitempty"`
-	Note       string `json:"note"`
+	TestFile   string            `json:"go_test,omitempty"`
+	TestPkgDir string            `json:"go_test_pkg,omitempty"`
+	TestName   string            `json:"go_test_name,omitempty"`
+	Confirmed  bool              `json:"confirmed_on_real_code"`
+	ReplayLog  string            `json:"replay_log,omitempty"`
+	Note       string            `json:"note"`
 }
 
 func writeReplay(prog *Program, dir, prop string, u *Unit, o *Obligation) ReplayInfo {
 	rf := &ReplayFile{Property: prop, Obligation: o.Name, Function: o.Func, Class: o.Class, Clause: o.Desc,
 		Position: fmt.Sprintf("%s:%d", o.Pos.Filename, o.Pos.Line), Status: o.Status, Solver: o.Solver, Output: firstLines(o.Model, 400)}
-	path := filepath.Join(dir, sanitize(o.Name)+".json")
+	path := filepath.Join(dir, shortFile(o.Name)+".json")
 	tryReplay(prog, dir, u, o, rf)
 	if !rf.Confirmed && rf.Note == "" {
 		rf.Note = "the obligation is discharged on the unchanged tree and is not discharged on this tree; the solver gave no model that could be replayed"
@@ -361,4 +380,14 @@ func writeReplay(prog *Program, dir, prop string, u *Unit, o *Obligation) Replay
 	b, _ := json.MarshalIndent(rf, "", " ")
 	os.WriteFile(path, b, 0o644)
 	return ReplayInfo{Path: path, Confirmed: rf.Confirmed}
+}
+
+func shortFile(name string) string {
+	n := sanitize(name)
+	if len(n) > 150 {
+		h := fnv.New64a()
+		h.Write([]byte(name))
+		n = fmt.Sprintf("%s_%x", n[:120], h.Sum64())
+	}
+	return n
 }
